@@ -208,12 +208,14 @@ class Response:
             return None
 
 
-def call(method, path, body=None, version='1.39', token='admin',
+def call(method, path, body=None, version="1.39", token="admin", roles=None,
          headers=None, app=None, raw_body=None, content_type=None):
     """One request through the complete real WSGI stack."""
     h = {'accept': 'application/json'}
     if token is not None:
         h['x-auth-token'] = token
+    if roles is not None:
+        h['x-roles'] = roles
     if version is not None:
         h['openstack-api-version'] = 'placement %s' % version
     kw = {}
